@@ -1,7 +1,9 @@
 #!/bin/bash
 # usage: tools/run_all.sh [tier] [jobs]   -- every registered check on /repo; prints one line per property
-cd /verif
+# runs in the checkout this script lives in; VERIF_OUT (optional) redirects evidence / replays
+cd "$(dirname "$0")/.."
 tier=${1:-quick}; jobs=${2:-5}
+out=${RUNALL_OUT:-/tmp/runall}
 ids=$(python3 -c "import json;print(' '.join(c['property_id'] for c in json.load(open('MANIFEST.json'))['checks']))")
-mkdir -p /tmp/runall
-echo $ids | tr ' ' '\n' | xargs -P $jobs -I{} sh -c "./check {} $tier > /tmp/runall/{}.out 2>&1; echo {} rc=\$? \$(tail -1 /tmp/runall/{}.out | cut -c1-200)"
+mkdir -p $out
+echo $ids | tr ' ' '\n' | xargs -P $jobs -I{} sh -c "./check {} $tier > $out/{}.out 2>&1; echo {} rc=\$? \$(tail -1 $out/{}.out | cut -c1-200)"
